@@ -46,7 +46,13 @@ pub fn jobs(ctx: &Ctx) -> Vec<Job> {
                     }
                 }
             }
+            // (the release-profile child stage takes every third length, rotating with the seed: the full sweep has
+            // just been done by the parent with all assertions armed)
+            let thin = crate::relstage::is_child();
             for len in 0..=MAX_LEN {
+                if thin && !near[len] && (len as u64 + ctx.seed) % 3 != 0 {
+                    continue;
+                }
                 jobs.push(mk(FAMS[0], class, Some(class), level, None, len, &mut k));
                 if len % 8 == 0 || near[len] {
                     jobs.push(mk(FAMS[0], class, None, level, None, len, &mut k));
